@@ -245,6 +245,28 @@ def gen_vec2(rng, uni: qgen.Universe, ev: str, uses, nvar):
     return src, ["vec2", n1.lower(), uni.colls[n1][0], b1, arrow, p1, n2.lower(), uni.colls[n2][0], b2, arrow, p2, sb]
 
 
+def gen_flat(rng, uni: qgen.Universe, ev: str, uses, nvar):
+    """A flattened column: C1(b1)[.Where(p1)].SelectMany(lambda o: C2(b2)[.Where(p2)]).Select(lambda y: body), or with the Select
+    inside the SelectMany lambda - ONE vector, the inner values once per passing outer element."""
+    n1, n2 = rng.choice(list(uni.colls)), rng.choice(list(uni.colls))
+    b1, b2 = rng.choice(["b1", "b2"]), rng.choice(["b1", "b2", "b3"])
+    uses.append((n1, b1))
+    uses.append((n2, b2))
+    arrow = uni.backend == "atlas"
+    g1_src, p1 = gen_guard(rng, nvar, (0, 1))
+    nvar[0] += 1
+    o = f"o{nvar[0]}"
+    g2_src, p2 = gen_guard(rng, nvar, (0, 1))
+    nvar[0] += 1
+    v = f"y{nvar[0]}"
+    b, sb = gen_body(rng, v, rng.choice([0, 1, 2]), funs=True)
+    if rng.random() < 0.5:
+        src = f'{ev}.{n1}("{b1}"){g1_src}.SelectMany(lambda {o}: {ev}.{n2}("{b2}"){g2_src}).Select(lambda {v}: {b})'
+    else:
+        src = f'{ev}.{n1}("{b1}"){g1_src}.SelectMany(lambda {o}: {ev}.{n2}("{b2}"){g2_src}.Select(lambda {v}: {b}))'
+    return src, ["flat", n1.lower(), uni.colls[n1][0], b1, arrow, p1, n2.lower(), uni.colls[n2][0], b2, arrow, p2, sb]
+
+
 def gen_first(rng, uni: qgen.Universe, ev: str, uses, nvar):
     """A First column: coll[.Where(p)].First().m()  or  coll[.Where(p)].Select(lambda y: body).First()"""
     name = rng.choice(list(uni.colls))
@@ -300,8 +322,11 @@ def gen_row(rng: random.Random, uni: qgen.Universe, depth: int):
         elif k < 0.62:
             s, sx = gen_first(rng, uni, "e", uses, nvar)
             cols.append((s, sx))
-        elif k < 0.85:
+        elif k < 0.8:
             s, sx = gen_vec(rng, uni, "e", uses, nvar)
+            cols.append((s, sx))
+        elif k < 0.9:
+            s, sx = gen_flat(rng, uni, "e", uses, nvar)
             cols.append((s, sx))
         else:
             s, sx = gen_vec2(rng, uni, "e", uses, nvar)
